@@ -257,7 +257,7 @@ def emit(tables, cps, dps):
     files["Tables.lean"] = t
 
     c = hdr + "namespace ZstdVerif.Gen\n\n"
-    skip = {"cparams", "dparams", "clevels", "compressBoundGrid"}
+    skip = {"cparams", "dparams", "clevels", "compressBoundGrid", "adjRows"}
     for k, v in tables.items():
         if k in skip or isinstance(v, (list, dict)):
             continue
@@ -269,6 +269,9 @@ def emit(tables, cps, dps):
     c += "structure CPar where\n  windowLog : Nat\n  chainLog : Nat\n  hashLog : Nat\n  searchLog : Nat\n  minMatch : Nat\n  targetLength : Nat\n  strategy : Nat\nderiving DecidableEq, Repr, Inhabited\n\n"
     c += "def clevels : List (List CPar) := [\n" + ",\n".join(
         lean_list(row, lambda r: "⟨%d,%d,%d,%d,%d,%d,%d⟩" % tuple(r), per=4) for row in tables["clevels"]) + "]\n"
+    c += "\n/-- ZSTD_getCParams(level, tier, 0) for the source-size tiers 16 KB, 128 KB, 256 KB, unknown: the rows ZSTD_estimateCCtxSize_internal sizes -/\n"
+    c += "def adjRows : List (List CPar) := [\n" + ",\n".join(
+        lean_list(row, lambda r: "⟨%d,%d,%d,%d,%d,%d,%d⟩" % tuple(r), per=4) for row in tables["adjRows"]) + "]\n"
     c += "\nend ZstdVerif.Gen\n"
     files["Consts.lean"] = c
 
